@@ -95,6 +95,18 @@ impl Locator {
                             continue;
                         }
                         in_text_run = true;
+                    } else if let XmlNode::ExpandedText(t) = &k {
+                        // text expansion on: adjacent merged-text nodes (after edits) read back as one
+                        use xml_dom::CharacterData;
+                        if t.length() == 0 {
+                            self.by_id.entry(k.id()).or_insert(format!("{}/!empty", path));
+                            continue;
+                        }
+                        if in_text_run {
+                            self.by_id.entry(k.id()).or_insert(format!("{}/{}", path, j - 1));
+                            continue;
+                        }
+                        in_text_run = true;
                     } else if let XmlNode::EntityReference(_) = &k {
                         // `>` after `]]` is printed as `&gt;`: a reference belongs to the run of character data around it
                         if in_text_run {
